@@ -209,7 +209,11 @@ func (r *Reader) Read(p []byte) (int, error) {
 	}
 	if r.concReader.ready() {
 		n, err := r.concReader.Read(p)
-		r.err = err
+		if err != io.EOF {
+			// Reaching the end of the region of interest is not a sticky
+			// error: a subsequent Seek or SeekRange is valid.
+			r.err = err
+		}
 		return n, err
 	}
 
